@@ -42,6 +42,17 @@ def programs():
                     "seq": [{"k": "par", "branches": [[{"k": "raise", "cls": cls, "msg": "m3"}], [S]]}]})
         out.append({"name": f"raise[{cls}]@step", "meta": {"kind": "raise", "cls": cls, "place": "step"},
                     "seq": [{"k": "step", "fn": {"raise": cls, "msg": "m4"}, "retry": "none"}]})
+    # error messages outside ASCII, including a string that cannot be encoded as UTF-8 (a lone surrogate, as
+    # produced by os.fsdecode / surrogateescape): still an outcome, never a hang
+    for tag, msg in (("non-ascii", "caf\u00e9 \u4e2d\u6587"), ("lone-surrogate", "bad \udce9 byte")):
+        out.append({"name": f"raise[ValueError;msg={tag}]@top", "meta": {"kind": "raise", "cls": "ValueError", "place": "top"},
+                    "seq": [S, {"k": "raise", "cls": "ValueError", "msg": msg}]})
+        out.append({"name": f"raise[ValueError;msg={tag}]@child", "meta": {"kind": "raise", "cls": "ValueError", "place": "child"},
+                    "seq": [{"k": "child", "body": [S, {"k": "raise", "cls": "ValueError", "msg": msg}]}]})
+        out.append({"name": f"raise[Boom;msg={tag}]@step", "meta": {"kind": "raise", "cls": "Boom", "place": "step"},
+                    "seq": [{"k": "step", "fn": {"raise": "Boom", "msg": msg}, "retry": "none"}]})
+        out.append({"name": f"return[str;{tag}]", "meta": {"kind": "return", "ret": "str"}, "seq": [{"k": "step", "fn": {"ret": msg}}],
+                    "ret": {"val": msg}})
     out.append({"name": "step-returns-object", "meta": {"kind": "raise", "cls": "ExecutionError", "place": "serdes"},
                 "seq": [{"k": "step", "fn": {"obj": True}}]})
     out.append({"name": "wait-zero-seconds", "meta": {"kind": "raise", "cls": "ValidationError", "place": "top"},
